@@ -187,8 +187,32 @@ def r17_5(ctx):
     has_guard(ctx, f, lambda t, k: "numel_out('alg')==0" in t and k == "assert", "SplineMethod: DAE rejected", "DAE under SplineMethod", "assert ode.numel_out('alg')==0")
     has_guard(ctx, f, lambda t, k: "sparsity_in('t').nnz()==0" in t and k == "assert", "SplineMethod: time-varying dynamics rejected", "time dependence", "assert ode.sparsity_in('t').nnz()==0")
     tr = [t for t in walk_no_nested(f.node) if isinstance(t, ast.Try) and any("evalf" in ast.unparse(s) for s in t.body)]
-    ok = len(tr) == 1 and all(any(isinstance(x, ast.Raise) for x in h.body) for h in tr[0].handlers)
-    ctx.check(ok, "SplineMethod: nonlinear dynamics rejected", detail="nonlinear dynamics", expected="try: evalf(A), evalf(B) except: raise", found="", fi=f)
+    ctx.check(len(tr) >= 1 and all(any(isinstance(x, ast.Raise) for x in h.body) for t in tr for h in t.handlers) and any("jacobian" in ast.unparse(x) or "A" == getattr(x, "id", None) for t in tr for s_ in t.body for x in ast.walk(s_)),
+              "SplineMethod: nonlinear dynamics rejected", detail="nonlinear dynamics", expected="try: evalf(A), evalf(B) except: raise", found="", fi=f)
+    # the chains represent x' = (next member) exactly: a constant or parameter term in the right-hand side cannot be represented
+    # and must be rejected -- the Jacobians alone do not see it
+    sc = ctx.scope(f)
+    zero_evals = []
+    for c in walk_no_nested(f.node):
+        if not isinstance(c, ast.Call):
+            continue
+        kws = {k.arg: k.value for k in c.keywords if k.arg}
+        if is_call_to(c, "call") and c.args and is_call_to(c.args[0], "dict"):
+            kws = {k.arg: k.value for k in c.args[0].keywords if k.arg}
+        elif is_call_to(c, "call") and c.args and isinstance(c.args[0], ast.Dict):
+            kws = {k.value: v for k, v in zip(c.args[0].keys, c.args[0].values) if isinstance(k, ast.Constant)}
+        if {"x", "u"} <= set(kws) and all(("zeros" in ast.unparse(kws[a]) or ast.unparse(kws[a]) in ("0", "0.0")) for a in ("x", "u")):
+            zero_evals.append(c)
+    ok = False
+    for c in zero_evals:
+        st = sc.stmt_of(c)
+        in_try = any(isinstance(p_, ast.Try) and st in p_.body and all(any(isinstance(x, ast.Raise) for x in h.body) for h in p_.handlers) for p_ in ast.walk(f.node))
+        tgt = st.targets[0].id if isinstance(st, ast.Assign) and isinstance(st.targets[0], ast.Name) else None
+        tested = tgt is not None and any(isinstance(i, (ast.If, ast.Assert)) and any(isinstance(x, ast.Name) and x.id == tgt for x in ast.walk(i.test)) and
+                                         (isinstance(i, ast.Assert) or any(isinstance(x, ast.Raise) for x in i.body)) for i in walk_no_nested(f.node))
+        ok = ok or (in_try and tested)
+    ctx.check(ok, "SplineMethod: a constant or parameter term in the dynamics is rejected", detail="affine right-hand side accepted and its offset dropped (x' = u + 1 transcribed as x' = u)",
+              expected="the right-hand side evaluated at x=0, u=0 must be identically zero, else raise", found="%d evaluation(s) at the origin" % len(zero_evals), fi=f)
     g = P.own_method("SplineMethod", "add_variables")
     has_guard(ctx, g, lambda t, k: "localize_t0" in t and "localize_T" in t and k == "assert", "SplineMethod: localised grids rejected", "grid formulation", "assert not localize_t0 and not localize_T")
     w = [c for c in walk_no_nested(f.node) if isinstance(c, ast.Assert) and 'weight' in ast.unparse(c.test)]
